@@ -11,7 +11,7 @@ import datetime as dtm
 
 from ..e1 import Template
 from .. import kernel as K
-from ..kernel import DATE, DT, INT, STR
+from ..kernel import DATE, DT, DT_MS, DT_NS, INT, STR
 
 S_T = [("t", {"a": INT, "d": DATE, "t": DT})]
 S_D2 = [("t", {"a": INT, "d": DATE, "e": DATE})]
@@ -80,6 +80,13 @@ def _all(cfg):
     T(["C17"], "date_to_dt_agg", lambda p, t: t >> p.summarize(y=t.d.cast(p.Datetime()).max(), z=t.t.cast(p.Date()).min()))
     T(["C17"], "date_to_dt_arrange", lambda p, t: t >> p.arrange(t.d.cast(p.Datetime()).nulls_last(), t.a.nulls_last()))
     T(["C17"], "null_to_date", lambda p, t: t >> p.mutate(y=p.lit(None).cast(p.Date()), z=t.d.cast(p.Datetime()).is_null()))
+    # frames whose datetime column has millisecond / nanosecond unit (arrow / parquet / pandas data)
+    for unit, ty in (("ms", DT_MS), ("ns", DT_NS)):
+        SU = [("t", {"a": INT, "t": ty, "d": DATE})]
+        T(["C17"], f"{unit}_to_str", lambda p, t: t >> p.mutate(y=t.t.cast(p.String())), SU, nmax=1)
+        T(["C17", "C12"], f"{unit}_to_date", lambda p, t: t >> p.mutate(y=t.t.cast(p.Date()), z=t.t.cast(p.Date()).cast(p.String())), SU)
+        T(["C17"], f"{unit}_cmp", lambda p, t: t >> p.mutate(x=t.t == T1, y=t.d.cast(p.Datetime()) <= t.t, m=p.max(t.t, T0)), SU)
+        T(["C03"], f"{unit}_parts", lambda p, t: t >> p.mutate(h=t.t.dt.hour(), s=t.t.dt.second(), y=t.t.dt.year()), SU, nmax=1)
     # constant sources (literal / column made from a python scalar): same table as for columns
     T(["C17", "C19"], "lit_dt_to_date", lambda p, t: t >> p.mutate(y=p.lit(T0).cast(p.Date()), z=p.lit(D0).cast(p.Datetime())))
     T(["C17"], "lit_to_str", lambda p, t: t >> p.mutate(y=p.lit(T0).cast(p.String()), z=p.lit(D1).cast(p.String()), w=p.lit(T2).cast(p.Date()).cast(p.String())))
